@@ -113,6 +113,7 @@ func (s *set[ElementType]) Replace(elements ReadableSet[ElementType]) (removedEl
 		return !elements.Has(element)
 	})
 	s.Clear()
+	verifYield("set-replace-cleared")
 
 	for _, element := range newElements {
 		s.Set(element, types.Void)
